@@ -3,6 +3,7 @@
 use crate::driver::{minimise, run_generated, run_ops, ReplayDoc};
 use crate::gen::Swarm;
 use crate::scen_hist::Hist;
+use crate::scen_twin::Twin;
 use simcore::runner::{RunReport, Violation};
 
 pub struct PropSpec {
@@ -20,6 +21,8 @@ pub struct PropSpec {
 
 const RULE_HIST: &str = "each run = one seeded swarm configuration + one seeded operation history (DDL, multi-row DML with faults placed at seeded row positions, transactions) executed step by step on the real engine; an evaluation is one oracle comparison after a step; a run is non-trivial if it contains >=1 successful state change and >=1 non-vacuous oracle evaluation; distinct = distinct hash of the sequence of (operation kind, outcome class, reach probes hit)";
 
+const RULE_TWIN: &str = "each run = one seeded swarm configuration + one seeded history applied to twin Database instances that differ in exactly one respect; after every state-changing step the base tables are compared and 2-5 generated read-only probes are executed on all twins (multiset equality; sequence equality when ORDER BY covers the select list); an evaluation is one such comparison; non-trivial = >=1 successful state change and >=1 comparison; distinct = distinct hash of the sequence of (operation kind, outcome class, reach probes)";
+
 pub fn spec(id: &str) -> Option<PropSpec> {
     let s = |id, label, rq, rt, level, assumptions: &'static [&'static str], qn| PropSpec {
         id,
@@ -33,10 +36,28 @@ pub fn spec(id: &str) -> Option<PropSpec> {
         stubs: &[],
         quarantine_note: qn,
     };
+    let t = |id, label, rq, rt, assumptions: &'static [&'static str]| PropSpec {
+        id,
+        scenario: "twin",
+        label,
+        runs_quick: rq,
+        runs_thorough: rt,
+        level: "exploration",
+        rule: RULE_TWIN,
+        assumptions,
+        stubs: &[],
+        quarantine_note: "",
+    };
     Some(match id {
+        "C02" => t("C02", 2, 10000, 200000, &["twin 0 receives every CREATE/DROP INDEX of the history, twin 1 none; a statement rejected by twin 0 (e.g. by a UNIQUE index) is not applied to twin 1, so both stay in the same state", "probes cover a generated SQL subset (single table with all comparison operators/BETWEEN/IN/AND/OR, ORDER BY/LIMIT, DISTINCT, aggregates, GROUP BY, 2-table joins, IN/EXISTS/NOT IN/NOT EXISTS/scalar subqueries, set operations, derived tables)"]),
+        "C18" => t("C18", 18, 8000, 150000, &["the restarted twin is saved to a real file under /dev/shm, dropped, and re-created with load_*; the twin that never restarts is the reference", "column types limited to INTEGER and VARCHAR in this scenario (the full persisted type set is exercised by the 'types' sub-scenario)"]),
+        "C19" => t("C19", 19, 8000, 150000, &["oracle restricted to what the statement promises: tables, columns (name, type) and exactly the same rows", "after a reload the history continues on both twins; a reloaded twin that accepts/rejects differently (constraints are not promised) ends the run without alarm"]),
         "C09" => s("C09", 9, 20000, 400000, "exploration", &["the set of affected rows and the new row images are taken from the SUT's own SELECT on the pre-state (the property is agreement between the DML and the query reading of the predicate)", "values compared after numeric normalisation (integer variants and integral floats by value)"], ""),
         "C10" => s("C10", 10, 20000, 400000, "exploration", &["declared constraints are tracked from the CREATE TABLE / CREATE UNIQUE INDEX statements the SUT accepted", "CHECK constraints are restricted to integer comparisons the harness evaluates itself"], ""),
         "C11" => s("C11", 11, 15000, 300000, "fault_enumeration", &["observable state = per-table schema + row multiset, catalog listings (tables, indexes, views, triggers) and index-driven reads on every table that has a user index"], ""),
+        "C12" => s("C12", 12, 15000, 300000, "exploration", &["single-column foreign keys onto INTEGER primary keys; parent/child chains up to 3 tables, optional self-reference", "reference model of ON DELETE / ON UPDATE actions is applied to the rows the SUT's own SELECT reports as affected; the model abstains (counted as c12.unmodelled.*) on self-referencing restrict and on key updates of self-referencing tables", "one-sided: an accepted statement must leave the model's post-state and no orphan; a refused statement is not second-guessed"], ""),
+        "C13" => s("C13", 13, 15000, 300000, "exploration", &["observable state = per-table schema + row multiset, catalog listings and index-driven reads on every index; the snapshot before BEGIN is compared with the one after ROLLBACK", "transactions are not nested; savepoints are exercised under C14"], ""),
+        "C14" => s("C14", 14, 15000, 300000, "exploration", &["reference model = stack of (savepoint name, table contents read from the SUT when the savepoint was created)", "savepoint names are unique among live savepoints; a destroyed name may be reused", "histories bounded by the swarm step count (<= 48)"], ""),
         "C15" => s("C15", 15, 10000, 200000, "exploration", &["'rebuild from scratch' for a user index = DROP INDEX + the same CREATE INDEX on a clone of the database", "row positions inside one key compared as sets"], ""),
         "C24" => s("C24", 24, 20000, 400000, "exploration", &["decided in its stateful reading only: statements reachable by the workload generator against states reached by histories", "harness profile has overflow checks on, so unchecked integer arithmetic panics instead of wrapping"], ""),
         _ => return None,
@@ -59,6 +80,28 @@ fn tweak_for(prop: &str) -> impl Fn(&mut Swarm) {
                 sw.fault_pct = 25;
             }
         }
+        "C12" => {
+            sw.with_fk = true;
+            sw.with_check = false;
+            sw.with_unique = false;
+            sw.ddl_in_history = false;
+            sw.with_tx = false;
+            sw.w_truncate = sw.w_truncate.min(1);
+            sw.domain = sw.domain.max(5).min(16);
+            sw.null_pct = sw.null_pct.min(30);
+        }
+        "C13" => {
+            sw.with_tx = true;
+            sw.w_tx = 5;
+            sw.ddl_in_history = true;
+            sw.with_savepoints = false;
+        }
+        "C14" => {
+            sw.with_tx = true;
+            sw.with_savepoints = true;
+            sw.w_tx = 8;
+            sw.steps = sw.steps.max(20);
+        }
         "C15" => {
             sw.with_indexes = true;
             sw.w_index = 4;
@@ -66,13 +109,24 @@ fn tweak_for(prop: &str) -> impl Fn(&mut Swarm) {
         "C24" => {
             sw.extreme_ints = true;
         }
+        "C02" => {
+            sw.with_indexes = true;
+            sw.w_index = 4;
+            sw.with_tx = false;
+            sw.steps = sw.steps.max(16);
+        }
+        "C18" | "C19" => {
+            sw.with_tx = false;
+            sw.steps = sw.steps.max(16);
+        }
         _ => {}
     }
 }
 
 pub fn run(prop: &str, run_seed: u64, guards: &[String]) -> RunReport {
     match prop {
-        "C09" | "C10" | "C11" | "C15" | "C24" => run_generated::<Hist>(prop, run_seed, guards, tweak_for(prop)),
+        "C09" | "C10" | "C11" | "C12" | "C13" | "C14" | "C15" | "C24" => run_generated::<Hist>(prop, run_seed, guards, tweak_for(prop)),
+        "C02" | "C18" | "C19" => run_generated::<Twin>(prop, run_seed, guards, tweak_for(prop)),
         _ => panic!("unknown property {}", prop),
     }
 }
@@ -80,6 +134,7 @@ pub fn run(prop: &str, run_seed: u64, guards: &[String]) -> RunReport {
 pub fn replay(doc: &ReplayDoc) -> (Option<Violation>, u64) {
     match doc.scenario.as_str() {
         "hist" => run_ops::<Hist>(&doc.property, &doc.swarm, &doc.ops),
+        "twin" => run_ops::<Twin>(&doc.property, &doc.swarm, &doc.ops),
         other => panic!("unknown scenario {}", other),
     }
 }
@@ -87,6 +142,7 @@ pub fn replay(doc: &ReplayDoc) -> (Option<Violation>, u64) {
 pub fn minimise_doc(doc: &ReplayDoc) -> ReplayDoc {
     match doc.scenario.as_str() {
         "hist" => minimise::<Hist>(doc),
+        "twin" => minimise::<Twin>(doc),
         _ => doc.clone(),
     }
 }
